@@ -8,6 +8,7 @@ mod util;
 mod fam_bloom;
 mod fam_hist;
 mod fam_conf;
+mod fam_store;
 mod gen;
 mod model;
 
@@ -31,6 +32,7 @@ fn main() {
         "bloom" => fam_bloom::run(&mut rng, &tier, out),
         "hist" => fam_hist::run(&mut rng, &tier, out),
         "conf" => fam_conf::run(&mut rng, &tier, out),
+        "store" => fam_store::run(&mut rng, &tier, out),
         _ => {
             eprintln!("unknown family {}", fam);
             std::process::exit(2);
